@@ -192,6 +192,21 @@ theorem ofO_inv {dw : DW} (hi : Inv dw) {r : OOut Unit} (h : r.All WInv)
     · refine ⟨fun hv => ?_, fun hv => ?_⟩ <;> simp [DW.toD, hg] at hv
   | ub => exact hi
 
+theorem world_setRootObj_dir (w : World) (k a : Nat) : (w.setRootObj k a).All (fun w' => w'.g.directed = w.g.directed) := by
+  unfold World.setRootObj
+  split
+  · trivial
+  · split
+    · exact rfl
+    · rename_i id _
+      have hd := G.dir_setRoot w.g id
+      split
+      · rename_i u g' hg; rw [hg] at hd; exact hd
+      · rename_i g' hg; rw [hg] at hd; exact hd
+
+theorem setRootObj_inv {dw : DW} (hi : Inv dw) (k : Nat) (a : Obj) : Inv (dw.setRootObj k a).2 :=
+  ofO_inv hi (world_setRootObj_inv hi.winv k a) (world_setRootObj_dir dw.w k a)
+
 theorem createNode_inv {dw : DW} (hi : Inv dw) (k : Nat) (a : Obj) : Inv (dw.createNode k a).2 :=
   ofO_inv hi (world_createNode_inv hi.winv k a) (world_createNode_dir dw.w k a)
 theorem linkO_inv {dw : DW} (hi : Inv dw) (k : Nat) (a b : Obj) (x : Option Obj) : Inv (dw.link k a b x).2 :=
@@ -407,6 +422,7 @@ theorem step_inv {dw : DW} (hi : Inv dw) (op : DWOp) : Inv (dw.step op) := by
   | copy j k => exact copyObs_inv hi j k
   | clone j k => exact cloneObs_inv hi j k
   | assign j k => exact assignObs_inv hi j k
+  | setRoot k a => exact setRootObj_inv hi k a
 
 theorem run_inv (ops : List DWOp) : ∀ dw : DW, Inv dw → Inv (dw.run ops) := by
   induction ops with
